@@ -80,4 +80,3 @@ package grpc
 //@       modifies mapOf(load(hd)), mapOf(load(tr)), cell(hd), cell(tr)
 //@   ensures* rejected.requests.stop.here: old(h.decoder) != 0 && lastDecErr != nil ==> result1 != nil && epCount == 0
 //@   ensures* endpoint.once: result1 == nil ==> epCount == 1 && (old(h.decoder) != 0 ==> decCount == 1)
-//@   modifies all
